@@ -1,6 +1,7 @@
 import RainModel.Lemmas.LoopWeak
 import RainModel.Lemmas.LoopStart
 import RainModel.Lemmas.LoopVerify2
+import RainModel.Lemmas.LoopWInvDec
 /-!
 C04 — lifecycle safety, loop level (M-LOOP).  Two inductive invariants of the event loop, proved for every
 event with arbitrary parameters, every state satisfying them, and every admissible choice of the picker:
@@ -205,10 +206,50 @@ theorem no_panic_partial :
     handlePeerMessage_no_panic, processQueued_no_panic, writerRun_no_panic, allocatorRun_no_panic,
     handleVerificationDone_no_panic, handleMetadataData_no_panic⟩
 
-/-- The full statement (not proved): no history from a freshly added torrent ever sets `panicked`. -/
+/-- The full statement as it was first written down: no history from a freshly added torrent ever sets
+`panicked`.  It is **false** as stated (`no_panic_full_false`): three hypotheses are missing, each with a
+concrete panicking history below (section `Witnesses`).  The true statement is `no_panic_full_partial`. -/
 def no_panic_full : Prop :=
   ∀ (s0 : St), InitLike s0 → s0.panicked = none → ∀ evs : List Ev, drunAdmissible (s0, none) evs →
     (drun (s0, none) evs).1.panicked = none
+
+/-- **no_panic** (the inductive theorem; `no_panic_full` under three explicit, decidable extra hypotheses).
+From a freshly added torrent (`InitLike`) that is not panicked, with
+
+* no piece write in flight in the initial state (`s0.writing = none`; `InitLike` does not say so),
+* a configuration in which every piece that has blocks has a non-padding section
+  (`s0.cfg.blocksHaveData`, the converse of `CfgWF`),
+* every choice of the implementation accepted by the model — piece downloads (`drunAdmissible`, `reconcile`
+  reports no error, as before) **and metadata downloads** (`drunAdmissibleI`, `reconcileIdl` reports no
+  error: exactly the runs on which the driver reports neither C09 nor C13),
+
+no history — any events, any parameters, any gates, any interleaving of worker completions — reaches one of
+Go's panic sites (`crash(…)`, close of the closed `completeC`, nil bitfield).  Proof: the invariant
+`Full = Life ∧ CompInv ∧ WInv` (`Lemmas/LoopWInv*.lean`) is inductive and implies each handler's local
+precondition of `no_panic_partial`. -/
+theorem no_panic_full_partial (s0 : St) (h0 : InitLike s0) (hp : s0.panicked = none)
+    (hw : s0.writing = none) (hc : s0.cfg.blocksHaveData = true)
+    (evs : List Ev) (ha : drunAdmissible (s0, none) evs) (hi : drunAdmissibleI (s0, none) evs) :
+    (drun (s0, none) evs).1.panicked = none :=
+  (drun_full evs (s0, none) (h0.full hc hw) ha hi).2 hp
+
+/-- The same for one event from any state satisfying the invariant (any parked message, any parameters). -/
+theorem no_panic_step (s : St) (p : Parked) (kn : Nat → Bool) (op : Op) (h : Full s) (hp : s.panicked = none) :
+    (step s p kn op).1.st.panicked = none ∧ Full (step s p kn op).1.st :=
+  ⟨(step_full s p kn op h).2 hp, (step_full s p kn op h).1⟩
+
+/-- The write/download invariant along whole histories (what the proof of `no_panic_full_partial` carries). -/
+theorem write_invariant_run (s0 : St) (h0 : InitLike s0) (hw : s0.writing = none)
+    (hc : s0.cfg.blocksHaveData = true) (evs : List Ev) (ha : drunAdmissible (s0, none) evs)
+    (hi : drunAdmissibleI (s0, none) evs) : WInv (drun (s0, none) evs).1 :=
+  (drun_full evs (s0, none) (h0.full hc hw) ha hi).1.w
+
+/-- `stop`, then the stop timeout: `Stopped` in every case along a history — the extra hypothesis of
+`stop_waitstop_reaches_stopped` (the first step does not panic) is discharged by the invariant. -/
+theorem stop_waitstop_reaches_stopped_full (s : St) (p : Parked) (kn kn' : Nat → Bool) (h : Full s)
+    (hp : s.panicked = none) (hv : s.doVerify = false) :
+    (step (step s p kn .stop).1.st (step s p kn .stop).2 kn' .waitstop).1.st.status = .stopped :=
+  Rain.Loop.stop_waitstop_reaches_stopped s p kn kn' h.life hp hv ((step_full s p kn .stop h).2 hp)
 
 /-! Non-vacuity of `stopped_clean` / `seeding_truthful`: a download that completes, then stops. -/
 section Example
@@ -257,5 +298,86 @@ example : (drun (s1h, none) (evs1 ++ [⟨.stop, kn [1], [], []⟩, ⟨.start, kn
 example : (drun (s1h, none) (evs1 ++ [⟨.stop, kn [1], [], []⟩, ⟨.gate .open true, kn [1], [], []⟩,
     ⟨.start, kn [1], [], []⟩])).1.status = .allocating := by decide
 end Example
+
+/-! ### Witnesses: why `no_panic_full` needs the three extra hypotheses
+
+Each history below starts from an `InitLike`, unpanicked state, every `reconcile` is error-free
+(`drunAdmissible`), and the model panics.  None of them is a run of rain: W1 is flagged by the driver as C13
+`metadata-download-inadmissible` (rain's `startInfoDownloaders` returns at once when `t.info != nil`), W2 needs
+block lists that `calcBlocks` never produces (blocks for a piece made of padding only), W3 needs a torrent
+object created with a piece write already in flight. -/
+section Witnesses
+private theorem initLike_of (s : St) (h1 : s.cfg.wfCheck = true) (h2 : s.bad = s.cfg.dataSects) (h3 : s.bf = none)
+    (h4 : s.persisted = none) (h5 : s.errC = false) (h6 : s.stopAnn = false) (h7 : s.allocator = false)
+    (h8 : s.verifier = false) (h9 : s.loaded = false) (h10 : s.acceptor = false) (h11 : s.openFiles = [])
+    (h12 : s.peers = []) (h13 : s.dls = []) (h14 : s.idls = []) (h15 : s.leaked = 0) (h16 : s.completed = false)
+    (h17 : s.completeCClosed = false) : InitLike s :=
+  ⟨cfgWF_of_check _ h1, badWF_dataSects s h2, h3, h4, h5, h6, h7, h8, h9, h10, h11, h12, h13, h14, h15, h16, h17⟩
+
+/-- W1 — a magnet link; after the metadata has arrived (allocation held by the gate) the "implementation"
+starts another metadata download, which `reconcileIdl` rejects but `drunAdmissible` does not look at; its
+completion finds the allocator running: `allocator exists`. -/
+private def sW1 : St := { s1 with info := false, infoAtAdd := false, isize := 100 }
+private def evsW1 : List Ev := [
+  ⟨.gate .open true, kn [], [], []⟩,
+  ⟨.start, kn [], [], []⟩,
+  ⟨.peer 1 "10.0.0.2" true true false, kn [], [], []⟩,
+  ⟨.exths 1 true 100 false, kn [1], [], [1]⟩,
+  ⟨.metadata 1 0 100 true, kn [1], [], [1]⟩,
+  ⟨.metadata 1 0 100 true, kn [1], [], []⟩]
+example : (drun (sW1, none) evsW1).1.panicked = some "allocator exists" ∧ drunAdmissible (sW1, none) evsW1 ∧
+    sW1.writing = none ∧ sW1.cfg.blocksHaveData = true ∧ ¬ drunAdmissibleI (sW1, none) evsW1 := by decide
+example : InitLike sW1 := by apply initLike_of <;> decide
+
+/-- W2 — piece 1 consists of a padding file only but has a block (a configuration `blocksHaveData` rejects).
+Its write is held by the gate, a verify runs meanwhile (the verifier finds the padding piece fine: bit set),
+then the stale write completes without touching the storage and takes the success path:
+`already have the piece`. -/
+private def cW2 : Cfg :=
+  { pl := 16384, plens := [16384, 16384], blocks := [[(0, 16384)], [(0, 16384)]], flens := [16384, 16384],
+    fpads := [false, true], fnames := ["t", "pad"] }
+private def sW2 : St := { cfg := cW2, fileExists := [false, false], known := [false, false], bad := cW2.dataSects }
+private def evsW2 : List Ev := [
+  ⟨.start, kn [], [], []⟩,
+  ⟨.peer 1 "10.0.0.2" true true false, kn [], [], []⟩,
+  ⟨.msg 1 .haveAll, kn [1], [], []⟩,
+  ⟨.msg 1 .unchoke, kn [1], [⟨1, 1, false, false, false⟩], []⟩,
+  ⟨.gate .write true, kn [1], [⟨1, 1, false, false, false⟩], []⟩,
+  ⟨.msg 1 (.piece 1 0 16384 true), kn [1], [], []⟩,
+  ⟨.verify, kn [1], [], []⟩,
+  ⟨.gate .write false, kn [1], [], []⟩]
+example : (drun (sW2, none) evsW2).1.panicked = some "already have the piece" ∧ drunAdmissible (sW2, none) evsW2 ∧
+    drunAdmissibleI (sW2, none) evsW2 ∧ sW2.writing = none ∧ sW2.cfg.blocksHaveData = false := by decide
+example : InitLike sW2 := by apply initLike_of <;> decide
+
+/-- W3 — `InitLike` does not exclude an initial state with a write in flight; a good job for a piece without
+sections (here: out of range) completes at the first event and finds no bitfield:
+`handlePieceWriteDone: nil bitfield`. -/
+private def sW3 : St := { s1 with writing := some { piece := 5, src := 0, good := true, gen := 0 } }
+private def evsW3 : List Ev := [⟨.nop, kn [], [], []⟩]
+private theorem w3 : (drun (sW3, none) evsW3).1.panicked = some "handlePieceWriteDone: nil bitfield" ∧
+    drunAdmissible (sW3, none) evsW3 ∧ drunAdmissibleI (sW3, none) evsW3 ∧ sW3.cfg.blocksHaveData = true ∧
+    sW3.panicked = none := by decide
+private theorem initLike_sW3 : InitLike sW3 := by apply initLike_of <;> decide
+
+/-- **`no_panic_full` is false as stated** (witness W3; W1 and W2 refute it as well). -/
+theorem no_panic_full_false : ¬ no_panic_full := by
+  intro h
+  have := h sW3 initLike_sW3 w3.2.2.2.2 evsW3 w3.2.1
+  rw [w3.1] at this
+  cases this
+
+/-! Non-vacuity of `no_panic_full_partial`: the download of `evs1` (start, peer, have-all, unchoke, block →
+verified write → seeding) and the stop after it satisfy every hypothesis. -/
+example : InitLike s1 ∧ s1.panicked = none ∧ s1.writing = none ∧ s1.cfg.blocksHaveData = true ∧
+    drunAdmissible (s1, none) (evs1 ++ [⟨.stop, kn [1], [], []⟩]) ∧
+    drunAdmissibleI (s1, none) (evs1 ++ [⟨.stop, kn [1], [], []⟩]) :=
+  ⟨by apply initLike_of <;> decide, by decide, by decide, by decide, by decide, by decide⟩
+example : (drun (s1, none) (evs1 ++ [⟨.stop, kn [1], [], []⟩])).1.panicked = none :=
+  no_panic_full_partial s1 (by apply initLike_of <;> decide) (by decide) (by decide) (by decide) _ (by decide) (by decide)
+/-- a magnet link whose metadata arrives (W1 without the inadmissible choice) -/
+example : drunAdmissible (sW1, none) (evsW1.take 5 ++ [⟨.gate .open false, kn [1], [], []⟩]) ∧
+    (drun (sW1, none) (evsW1.take 5 ++ [⟨.gate .open false, kn [1], [], []⟩])).1.status = .downloading := by decide
+end Witnesses
 
 end Rain.Props.C04
